@@ -37,7 +37,12 @@ def gen(rng):
         if all(max(abs(p[0] - q[0]), abs(p[1] - q[1])) >= sep for q in pos):
             pos.append(p)
     bright = rng.permutation(len(pos)) * 1.5 + 2.0
-    return dict(shape=(fy, fx), kind=kind, radius=radius, pos=pos, bright=bright.tolist())
+    # the pattern OBJECT may have been used before, e.g. on a frame whose rfft2 spectrum has the same shape (widths 2m, 2m+1)
+    history = []
+    if rng.random() < 0.4:
+        fx2 = fx + 1 if fx % 2 == 0 else fx - 1
+        history = [[(fy, fx2), (fy, fx)], [(fy, fx2)], [(fy + 1, fx), (fy, fx2)]][int(rng.integers(0, 3))]
+    return dict(shape=(fy, fx), kind=kind, radius=radius, pos=pos, bright=bright.tolist(), history=[list(h) for h in history])
 
 
 def render(c):
@@ -52,6 +57,8 @@ def stmt_failure(c):
     f = render(c)
     pattern = make(c['kind'], c['radius'])
     try:
+        for hy, hx in c.get('history', []):
+            cc.get_peaks(np.linspace(0, 1, hy * hx, dtype=np.float32).reshape(hy, hx), pattern, 1)
         corr = cc.get_correlation(f, pattern)
     except Exception as e:  # noqa
         return 'get_correlation raised %s: %s' % (type(e).__name__, e)
@@ -62,7 +69,8 @@ def stmt_failure(c):
         pk = cc.get_peaks(f, pattern, k)
         want = [list(c['pos'][i]) for i in order[:k]]
         if pk.tolist() != want:
-            return 'get_peaks(num_peaks=%d) on shape %s (%s, radius %s) returned %s, expected the %d brightest disk centres %s' % (k, c['shape'], c['kind'], c['radius'], pk.tolist(), k, want)
+            return 'get_peaks(num_peaks=%d) on shape %s (%s, radius %s%s) returned %s, expected the %d brightest disk centres %s' % (
+                k, c['shape'], c['kind'], c['radius'], ', same pattern object used before on shapes %s' % c['history'] if c.get('history') else '', pk.tolist(), k, want)
     return None
 
 
@@ -117,6 +125,7 @@ def run(ctx):
         fail = stmt_failure(c)
         ctx.count(len(c['pos']), key=(c['shape'], c['kind'], c['radius'], c['pos']))
         ctx.hist('oracle_parity', '%d%d' % (c['shape'][0] % 2, c['shape'][1] % 2))
+        ctx.hist('pattern object used before on', len(c['history']))
         if fail:
             ctx.violation('input', fail, {'kind': 'input', 'call': 'get_correlation / get_peaks', 'args': c, 'failure': fail},
                           signature='get_correlation: wrong shape / shifted origin for odd frame sizes' if ('shape' in fail and 'has shape' in fail) else fail)
@@ -127,4 +136,4 @@ def run(ctx):
                     'every shape, ifftshift puts zero displacement on n/2 for every n whereas fftshift / the default irfft2 length are wrong for odd sizes (repaired defect), '
                     'the map scales with the brightness. Tie: get_correlation vs the exact cyclic convolution under vm_compute on small frames of all parities.',
         rule='(K) frames 4..11 x 4..11, 4 built-in patterns; (S) shapes 40..130 in all parity combinations, 1..12 separated pixel-centred antialiased disks of distinct brightness, '
-             'k = 1..number of disks. peak_local_max (skimage) is external: its contract is assumed and sampled.')
+             'k = 1..number of disks; in 40 % of the cases the pattern object was used before on 1..2 other shapes (incl. the width of other parity that shares the rfft2 shape). peak_local_max (skimage) is external: its contract is assumed and sampled.')
